@@ -42,6 +42,7 @@ PROPS["C05"] = {
 }
 
 PROPS["C09"] = {
+    "seed_pool": (r"c09_t_(?:rev|comp|revcomp)_", 8),
     "feature": "c09",
     "tiers": tiers("C09"),
     "mem_gb": 8,
@@ -65,6 +66,7 @@ PROPS["C03"] = {
 }
 
 PROPS["C10"] = {
+    "seed_pool": (r"c10_t_kmer_", 8),
     "feature": "c10",
     "tiers": tiers("C10"),
     "mem_gb": 8,
@@ -87,6 +89,7 @@ PROPS["C13"] = {
 }
 
 PROPS["C04"] = {
+    "seed_pool": (r"c04_t_kmer_int_", 6),
     "feature": "c04",
     "tiers": tiers("C04"),
     "mem_gb": 10,
